@@ -328,7 +328,7 @@ def run(ctx):
         ok = ctx.assumptions()
     ctx.count_obligations('Props/C07.v')
     rng = ctx.rng
-    n, budget = (120, 14) if ctx.tier == 'quick' else (800, 400)
+    n, budget = (120, 14) if ctx.tier == 'quick' else (150, 400)
     total = 0
     fails = []
     # corpus first: the recorded finding (a withdrawal 50 ms after an update, announcements still in flight)
